@@ -180,3 +180,197 @@ pub fn handle_init_rejects<P: Payload>(_s: &mut InitState<P>, _out: &mut MsgBuff
         _ => Error::CryptoInit("Invalid size for stage field"),
     })
 }
+
+// ===================================================================================================== handle_init (one step)
+// The handshake parser/verifier (InitMsg::read_from) and the message writer (send_message -> InitMsg::write_to) do not
+// complete under symbolic execution. For the obligations below they are replaced by
+//   read_from   -> what the parser returns for a datagram that VERIFIED under a trusted key: an arbitrary well-formed
+//                  message of the kind selected by the harness (or an arbitrary error), and
+//   send_message-> a recorder (stage sent, last_message set, output buffer non-empty),
+// so that one real InitState::handle_init step is decided: stage logic, self-connection check, cipher selection, key
+// agreement and - for C04 - which nonce half the new CryptoCore gets.
+static mut RF_KIND: u8 = 0; // 0 = error, 1 = ping, 2 = pong, 3 = peng
+static mut RF_HASH: [u8; 20] = [0; 20];
+static mut RF_SHAPE: usize = 10;
+static mut SENT_STAGE: u8 = 0;
+
+pub fn read_from_verified(_buffer: &[u8], _trusted: &[Ed25519PublicKey]) -> Result<(InitMsg, Ed25519PublicKey), Error> {
+    let kind = unsafe { RF_KIND };
+    let hash = unsafe { RF_HASH };
+    let pk: [u8; 32] = kani::any();
+    match kind {
+        1 => {
+            let speeds: [f32; 3] = [3.0, 2.0, 1.0];
+            let key: [u8; 32] = kani::any();
+            let mut v = SmallVec::<[u8; 96]>::new();
+            let mut i = 0;
+            while i < 32 {
+                v.push(key[i]);
+                i += 1;
+            }
+            Ok((InitMsg::Ping { salted_node_id_hash: hash, ecdh_public_key: EcdhPublicKey::new(&X25519, v), algorithms: mk_algos(unsafe { RF_SHAPE }, false, &speeds, false) }, pk))
+        }
+        _ => {
+            let k: u8 = kani::any();
+            Err(match k % 4 {
+                0 => Error::Parse("Init message too short"),
+                1 => Error::Crypto("untrusted peer"),
+                2 => Error::Crypto("invalid signature"),
+                _ => Error::CryptoInit("Init message without stage"),
+            })
+        }
+    }
+}
+
+pub fn send_message_recorder<P: Payload>(s: &mut InitState<P>, stage: u8, _ecdh: Option<EcdhPublicKey>, out: &mut MsgBuffer) {
+    assert!(out.is_empty());
+    unsafe {
+        SENT_STAGE = stage;
+    }
+    s.last_message = Some(vec![stage]);
+    out.set_length(1);
+}
+
+fn any_stage() -> u8 {
+    let s: u8 = kani::any();
+    kani::assume(s >= STAGE_PING && s <= CLOSING);
+    s
+}
+
+/// C01/C08: a handshake datagram that the parser/verifier rejects (any error) leaves no trace: stage, retry counter,
+/// close timer, last message, key material, crypto core and the output buffer are unchanged, and the error is returned
+#[cfg_attr(kani, kani::proof, kani::unwind(34), kani::stub(crate::crypto::init::InitMsg::read_from, read_from_verified),
+           kani::stub(crate::crypto::init::InitState::send_message, send_message_recorder))]
+pub fn c08_rejected_handshake_message_leaves_no_state() {
+    let stage = any_stage();
+    let retries: usize = kani::any();
+    let close_time: usize = kani::any();
+    let has_last: bool = kani::any();
+    let has_ecdh: bool = kani::any();
+    let own: [u8; 20] = kani::any();
+    let stale: [u8; 8] = kani::any();
+    unsafe {
+        RF_KIND = 0;
+    }
+    let mut st = mk_state(mk_algos(10, false, &[1.0, 2.0, 3.0], false));
+    st.salted_node_id_hash = own;
+    st.next_stage = stage;
+    st.failed_retries = retries;
+    st.close_time = close_time;
+    st.last_message = if has_last { Some(vec![7, 7]) } else { None };
+    if has_ecdh {
+        let (k, _) = st.create_ecdh_keypair();
+        st.ecdh_private_key = Some(k);
+    }
+    let mut out = MsgBuffer::new(100);
+    out.set_length(8);
+    out.message_mut().copy_from_slice(&stale);
+    let res = st.handle_init(&mut out);
+    match res {
+        Ok(_) => assert!(false),
+        Err(e) => std::mem::forget(e),
+    }
+    assert!(st.next_stage == stage && st.failed_retries == retries && st.close_time == close_time);
+    assert!(st.last_message.is_some() == has_last && st.ecdh_private_key.is_some() == has_ecdh);
+    assert!(st.crypto.is_none() && st.selected_algorithm.is_none());
+    assert!(st.salted_node_id_hash == own);
+    assert!(out.get_start() == 100 && out.len() == 8);
+    let m = out.message();
+    let mut i = 0;
+    while i < 8 {
+        assert!(m[i] == stale[i]);
+        i += 1;
+    }
+    std::mem::forget(st);
+    witness!();
+}
+
+/// C04 (half decision at the real call site) + C06 (the selected cipher is the one installed): a fresh responder that
+/// receives a verified ping from a peer with salted hash H (not itself) creates its crypto core in the half
+/// `own_hash > H`, with the cipher `select_algorithm` chose, answers with a pong and awaits the peng.
+#[cfg_attr(kani, kani::proof, kani::unwind(34), kani::stub(crate::crypto::init::InitMsg::read_from, read_from_verified),
+           kani::stub(crate::crypto::init::InitState::send_message, send_message_recorder))]
+pub fn c04_responder_half_is_hash_order() {
+    let own: [u8; 20] = kani::any();
+    let peer: [u8; 20] = kani::any();
+    unsafe {
+        RF_KIND = 1;
+        RF_HASH = peer;
+        RF_SHAPE = 2;
+        SENT_STAGE = 0;
+    }
+    let mut st = mk_state(mk_algos(2, false, &[1.0, 2.0, 3.0], false));
+    st.salted_node_id_hash = own;
+    let mut out = MsgBuffer::new(100);
+    out.set_length(40);
+    let res = st.handle_init(&mut out);
+    let mut same = true;
+    let mut i = 0;
+    while i < 20 {
+        if own[i] != peer[i] {
+            same = false;
+        }
+        i += 1;
+    }
+    match res {
+        Err(e) => {
+            std::mem::forget(e);
+            // with a common cipher the only refusal is the self-connection check
+            assert!(same);
+            assert!(st.crypto.is_none() && st.next_stage == STAGE_PING);
+        }
+        Ok(r) => {
+            assert!(matches!(r, InitResult::Continue));
+            assert!(!same);
+            assert!(st.next_stage == STAGE_PENG && unsafe { SENT_STAGE } == STAGE_PONG && !out.is_empty());
+            let core = st.crypto.as_ref().unwrap();
+            assert!(crate::crypto::core::verif::half_of(core) == (own > peer));
+            // both lists are [aes256] (the selection function itself is C06's subject)
+            assert!(st.selected_algorithm == Some(&AES_256_GCM));
+            assert!(core.algorithm() == &AES_256_GCM);
+            assert!(st.failed_retries == 0);
+        }
+    }
+    std::mem::forget(st);
+    witness!();
+}
+
+/// C14 (self-connection kernel): a verified ping that comes from ANOTHER handshake object of the same node - its salted
+/// hash is salt' || SHA-256(salt' || own node id)[..16] for an arbitrary salt' - is refused as "connected to self":
+/// no crypto core, no reply, stage unchanged. (The node meets itself this way when it dials one of its own addresses it
+/// does not know to be its own: the responder object it creates has a different salt than the dialling one.)
+#[cfg_attr(kani, kani::proof, kani::unwind(34), kani::stub(crate::crypto::init::InitMsg::read_from, read_from_verified),
+           kani::stub(crate::crypto::init::InitState::send_message, send_message_recorder))]
+pub fn c14_ping_from_own_node_id_is_refused() {
+    let node_id: NodeId = kani::any();
+    let salt2: [u8; 4] = kani::any();
+    let kp = Ed25519KeyPair::from_seed_unchecked(&[7u8; 32]).unwrap();
+    let tk: VArc<[Ed25519PublicKey]> = VArc::new([[0u8; 32]]);
+    // the responder object, made by the real constructor (own random salt)
+    let mut st: InitState<NoPayload> = InitState::new(node_id, NoPayload, VArc::new(kp), tk, mk_algos(2, false, &[1.0, 2.0, 3.0], false));
+    // the salted hash the same node's dialling object carries
+    let mut h = [0u8; SALTED_NODE_ID_HASH_LEN];
+    h[0..4].copy_from_slice(&salt2);
+    h[4..].copy_from_slice(&node_id);
+    let d = digest::digest(&digest::SHA256, &h);
+    h[4..].copy_from_slice(&d.as_ref()[..16]);
+    unsafe {
+        RF_KIND = 1;
+        RF_HASH = h;
+        RF_SHAPE = 2;
+        SENT_STAGE = 0;
+    }
+    let mut out = MsgBuffer::new(100);
+    out.set_length(40);
+    let res = st.handle_init(&mut out);
+    match res {
+        Ok(_) => assert!(false, "a node completed a handshake step with itself"),
+        Err(e) => {
+            assert!(matches!(e, Error::CryptoInitFatal(_)));
+            std::mem::forget(e);
+        }
+    }
+    assert!(st.crypto.is_none() && st.next_stage == STAGE_PING && unsafe { SENT_STAGE } == 0);
+    std::mem::forget(st);
+    witness!();
+}
